@@ -91,6 +91,7 @@ type CallRecord struct {
 	ExpectClientGot string        `json:"expect_client_got,omitempty"`
 	ExpectStatus    int           `json:"expect_status"`
 	ExpectErrClass  string        `json:"expect_err_class,omitempty"`
+	MayRefuse       bool          `json:"may_refuse,omitempty"`
 }
 
 type Result struct {
@@ -250,7 +251,7 @@ func (e *Engine) Bin(world string, race bool) string {
 
 // ---- sampling
 
-var ops = []string{"echoJSON", "echoJSON", "echoJSONStream", "echoForm", "echoMultipart", "echoStream", "variants", "secure", "secure2"}
+var ops = []string{"echoJSON", "echoJSON", "echoJSONStream", "echoForm", "echoMultipart", "echoStream", "variants", "secure", "secure2", "echoWild", "echoParams", "echoParams"}
 var invalids = []string{"pattern", "regexp2", "multipleOf", "maxLength", "enum", "tagpattern"}
 var readers = []string{"bytes", "bytes", "onebyte", "dataerr", "half"}
 var creds = []string{"header", "basic+query", "bearer", "header", "none", "wrong"}
@@ -282,6 +283,9 @@ func sampleCall(rng *rand.Rand, mode Mode) Call {
 	}
 	if c.Op == "echoForm" && rng.Intn(invalidP*2) == 0 {
 		c.Invalid = "minLength"
+	}
+	if c.Op == "echoParams" && rng.Intn(3) == 0 {
+		c.Invalid = "delim" // values containing a style's delimiter: outside the core domain, may be refused
 	}
 	frac := func() int { // per-mille of the wire length, biased to land inside the body
 		switch rng.Intn(6) {
@@ -329,7 +333,7 @@ func sampleCall(rng *rand.Rand, mode Mode) Call {
 		case 6:
 			c.Fault = &Fault{Kind: "writer-fail", At: rng.Intn(300)}
 		case 7:
-			c.Fault = &Fault{Kind: "ctype", Arg: []string{"", "text/weird", "application/json; charset=", "multipart/form-data", ";;;"}[rng.Intn(5)]}
+			c.Fault = &Fault{Kind: "ctype", Arg: []string{"", "text/weird", "application/json; charset=", "multipart/form-data", ";;;", "application", "application;", "APPLICATION", "multipart", "text", "application/", "/json"}[rng.Intn(12)]}
 		case 8:
 			c.Fault = &Fault{Kind: "method", Arg: []string{"GET", "PUT", "DELETE", "PATCH", "POST", "HEAD"}[rng.Intn(6)]}
 		case 9:
@@ -467,7 +471,17 @@ func oracleC01(r *CallRecord) []problem {
 	if r.Call.Fault != nil && !benign(r.Call.Fault.Kind) && !strings.HasSuffix(r.Call.Fault.Kind, "-req") && !strings.HasSuffix(r.Call.Fault.Kind, "-resp") && r.Call.Fault.Kind != "cancel" && r.Call.Fault.Kind != "writer-fail" {
 		return nil // in-flight alterations of the head are C15's business
 	}
-	valid := r.Call.Invalid == "" && r.ExpectErrClass == "" || strings.HasPrefix(r.ExpectErrClass, "status:")
+	valid := (r.Call.Invalid == "" || r.Call.Invalid == "delim") && r.ExpectErrClass == "" || strings.HasPrefix(r.ExpectErrClass, "status:")
+	if r.MayRefuse && r.ClientErrClass != "" {
+		// a value outside the core domain: one side reported an error instead of delivering it - fine, as long
+		// as the handler did not get a different value
+		for i, s := range r.Sides {
+			if s.HandlerCalls != 0 && s.ServerSaw != r.ExpectServerSaw {
+				add("a value that cannot be carried makes one side report an error instead of delivering a different value", fmt.Sprintf("delivery %d: %s", i, firstDiff(r.ExpectServerSaw, s.ServerSaw)))
+			}
+		}
+		return out
+	}
 	if benign(k) && (r.Call.Fault == nil || benign(r.Call.Fault.Kind)) {
 		// delivery variations only: everything exact
 		if valid {
@@ -530,7 +544,7 @@ func oracleC01(r *CallRecord) []problem {
 		if s.ServerSaw == r.ExpectServerSaw {
 			continue
 		}
-		if r.Call.Op == "echoStream" && strings.Contains(s.ServerSaw, `Err:"read error"`) {
+		if (r.Call.Op == "echoStream" || r.Call.Op == "echoWild") && strings.Contains(s.ServerSaw, `Err:"read error"`) {
 			continue // raw stream: a prefix and a read error
 		}
 		add("under a link fault the handler is not called with a different value", fmt.Sprintf("delivery %d: %s", i, firstDiff(r.ExpectServerSaw, s.ServerSaw)))
@@ -583,13 +597,16 @@ func oracleC15(r *CallRecord) []problem {
 				if s.Status != r.ExpectStatus && k != "writer-fail" {
 					add("handler outcome surfaces as its response", fmt.Sprintf("delivery %d: status %d, the handler's answer is %d", i, s.Status, r.ExpectStatus))
 				}
-			} else if r.Call.Op == "echoStream" && strings.Contains(s.ServerSaw, `Err:"read error"`) {
+			} else if (r.Call.Op == "echoStream" || r.Call.Op == "echoWild") && strings.Contains(s.ServerSaw, `Err:"read error"`) {
 				if s.Status != 500 {
 					add("handler failures surface as the spec's error response or 500", fmt.Sprintf("delivery %d: handler failed, status %d", i, s.Status))
 				}
 			}
 		}
 		// known classes
+		if r.Call.Invalid == "delim" {
+			continue // C01's business
+		}
 		jsonish := r.Call.Op == "echoJSON" || r.Call.Op == "echoJSONStream" || r.Call.Op == "variants" || r.Call.Op == "echoForm" || r.Call.Op == "echoMultipart"
 		switch {
 		case (k == "cut-req" || k == "reset-req") && jsonish:
@@ -618,11 +635,11 @@ func oracleC15(r *CallRecord) []problem {
 			if s.HandlerCalls != 0 || (s.Status != 400 && s.Status != 401) {
 				add("a lost required parameter is answered 400", fmt.Sprintf("delivery %d: status %d, handler calls %d", i, s.Status, s.HandlerCalls))
 			}
-		case k == "ctype" && r.Call.Op != "secure" && r.Call.Op != "secure2" && (r.Call.Fault.Arg == "text/weird" || r.Call.Fault.Arg == ";;;" || r.Call.Fault.Arg == ""):
+		case k == "ctype" && r.Call.Op != "secure" && r.Call.Op != "secure2" && r.Call.Op != "echoParams" && (r.Call.Fault.Arg == "text/weird" || r.Call.Fault.Arg == ";;;" || r.Call.Fault.Arg == "" || !strings.Contains(r.Call.Fault.Arg, "/")):
 			if s.HandlerCalls != 0 || (s.Status != 415 && s.Status != 400) {
 				add("a wrong or missing content type is answered 415/400", fmt.Sprintf("delivery %d: status %d, handler calls %d", i, s.Status, s.HandlerCalls))
 			}
-		case k == "method" && r.Call.Fault.Arg != "POST" && r.Call.Op != "secure" && r.Call.Op != "secure2":
+		case k == "method" && r.Call.Fault.Arg != "POST" && r.Call.Op != "secure" && r.Call.Op != "secure2" && r.Call.Op != "echoParams":
 			if s.HandlerCalls != 0 || s.Status != 405 || s.Allow != "POST" {
 				add("an undefined method is answered 405 with Allow", fmt.Sprintf("delivery %d: status %d, Allow %q, handler calls %d", i, s.Status, s.Allow, s.HandlerCalls))
 			}
